@@ -28,3 +28,17 @@ class Ballast(RandomUniformSampler):
         prev = getattr(self, "_ballast", np.zeros(0))
         self._ballast = np.concatenate([prev, np.full(self.STEP, float(len(existing_points)))])
         return super().sample_batch(batch_size, search_space, existing_points, existing_losses)
+
+
+class Walkers(RandomUniformSampler):
+    """A user-written sampler that KEEPS the array it returns and moves it in place at its next call (walkers): whatever it handed
+    out for batch k is its own working buffer while it prepares batch k+1."""
+
+    def sample_batch(self, batch_size, search_space, existing_points, existing_losses):
+        fresh = super().sample_batch(batch_size, search_space, existing_points, existing_losses)
+        buf = getattr(self, "_walkers", None)
+        if buf is None or buf.shape != fresh.shape:
+            self._walkers = np.array(fresh, dtype=np.float64)
+        else:
+            buf[...] = fresh          # in place: the previously returned array object now holds the new proposals
+        return self._walkers
